@@ -382,6 +382,23 @@ theorem rec_fabric_write (n : Node) (f f' : Fabric) (hidx : f'.idx = f.idx) (hge
     rw [hst] at this
     cases b <;> exact this
 
+theorem rec_vvs (cfg : Cfg) (n : Node) (sid s : Nat) (mode : Mode) (hg : GenInv n) (h : Rec n) :
+    Rec (sessOp cfg n sid mode (.vvs s)).1 := by
+  simp only [sessOp]
+  split
+  · exact h
+  · cases hgf : getFabric n mode.fab with
+    | none => exact h
+    | some f =>
+      have hidx := getFabric_idx hgf
+      simp only []
+      split
+      · exact h
+      · have := rec_storeFabric f (by rw [hidx]; exact hgf) hg h
+        rcases hst : storeFabric n f with ⟨n2, b⟩
+        rw [hst] at this
+        cases b <;> exact this
+
 theorem rec_write (cfg : Cfg) (n : Node) (sid : Nat) (mode : Mode) (op : Op) (hg : GenInv n) (h : Rec n)
     (hop : (∃ s v, op = .acl s v) ∨ (∃ s v, op = .grp s v) ∨ (∃ s v, op = .label s v) ∨ (∃ s, op = .fwrite s)) :
     Rec (sessOp cfg n sid mode op).1 := by
@@ -680,6 +697,7 @@ theorem sessOp_rec (cfg : Cfg) (n : Node) (sid : Nat) (mode : Mode) (op : Op) (h
   | grp s v => exact rec_write cfg n sid mode _ hg h (by simp)
   | label s v => exact rec_write cfg n sid mode _ hg h (by simp)
   | fwrite s => exact rec_write cfg n sid mode _ hg h (by simp)
+  | vvs s => exact rec_vvs cfg n sid s mode hg h
   | complete s => exact rec_complete cfg n sid s mode hg h
   | rmfab s idx => exact rec_rmfab cfg n sid s idx mode hg h
   | revoke s =>
